@@ -998,3 +998,129 @@ def formula_implied_by(f, premise_text):
         if _eval(g, env) and not _eval(f, env):
             return False
     return True
+
+
+# ------------------------------------------------------------------------------------------- caller-owned arguments
+_INPLACE = {"reverse", "sort", "extend", "append", "insert", "pop", "remove", "clear", "update", "add", "discard", "popitem",
+            "setdefault", "appendleft", "extendleft", "popleft", "rotate", "__setitem__", "__delitem__", "__iadd__"}
+_FRESH_CALLS = {"bytearray", "list", "dict", "set", "bytes", "tuple", "sorted", "reversed", "deque", "odict", "copy", "deepcopy", "str"}
+
+
+def _fresh(e):
+    """does expression e build a new object (so that mutating it cannot touch what the caller passed)?"""
+    if isinstance(e, (ast.List, ast.Dict, ast.Set, ast.ListComp, ast.DictComp, ast.SetComp, ast.Constant, ast.JoinedStr, ast.BinOp)):
+        return True
+    if isinstance(e, ast.Subscript) and isinstance(e.slice, ast.Slice):
+        return True
+    if isinstance(e, ast.Call):
+        n = (call_name(e) or "").split(".")[-1]
+        return n in _FRESH_CALLS
+    if isinstance(e, ast.IfExp):
+        return _fresh(e.body) and _fresh(e.orelse)
+    return False
+
+
+def param_mutations(view, params=None):
+    """in-place mutations of an object that may still be the caller's argument (or a mutable default):
+    [(cfg node, parameter name, construct text)].  A site is clean when every definition of the name that reaches it binds a
+    fresh object (bytearray(b), b[:], list(b), ..) and the parameter's original binding does not reach it."""
+    fn = view.fn
+    names = set(params) if params is not None else {a.arg for a in fn.args.args + fn.args.kwonlyargs} - {"self", "cls"}
+    out = []
+    for n in view.cfg.nodes:
+        sites = []
+        for x in view.cfg.walk_node(n):
+            if isinstance(x, ast.Call) and isinstance(x.func, ast.Attribute) and x.func.attr in _INPLACE and isinstance(x.func.value, ast.Name) \
+                    and x.func.value.id in names:
+                sites.append((x.func.value.id, src(x)[:60]))
+            elif isinstance(x, ast.Subscript) and isinstance(x.ctx, (ast.Store, ast.Del)) and isinstance(x.value, ast.Name) and x.value.id in names:
+                sites.append((x.value.id, src(x)[:60] + (" = .." if isinstance(x.ctx, ast.Store) else " (del)")))
+            elif isinstance(x, ast.AugAssign) and isinstance(x.target, ast.Name) and x.target.id in names and \
+                    isinstance(x.op, (ast.Add, ast.BitOr, ast.BitAnd, ast.Sub, ast.Mult)) and False:
+                pass
+        for name, text in sites:
+            defs, entry = view.reaching_defs(n, name)
+            stale = entry
+            for d in defs:
+                da = view.cfg.nodes[d].ast
+                ok = isinstance(da, ast.Assign) and len(da.targets) == 1 and isinstance(da.targets[0], ast.Name) and _fresh(da.value)
+                stale = stale or not ok
+            if stale:
+                out.append((n, name, text))
+    return out
+
+
+# ------------------------------------------------------------------------------------------- named integer constants
+def propagate_constants(fn, module_tree=None):
+    """copy of function fn in which every name that only ever holds one literal constant is replaced by that literal:
+    locals assigned exactly once (to a literal, outside any loop) and module-level names assigned exactly once to a literal.
+    Rules about parameters of an algorithm (polynomials, masks, presets) then do not depend on whether the literal is written
+    in place, kept in a local or kept in a module constant."""
+    import copy as _copy
+    f2 = _clone(fn)
+    consts = {}
+    if module_tree is not None:
+        cnt = {}
+        for st in module_tree.body:
+            if isinstance(st, ast.Assign) and len(st.targets) == 1 and isinstance(st.targets[0], ast.Name):
+                cnt.setdefault(st.targets[0].id, []).append(st.value)
+        for k, vs in cnt.items():
+            if len(vs) == 1 and isinstance(vs[0], ast.Constant) and isinstance(vs[0].value, (int, float, str, bytes)):
+                consts[k] = vs[0]
+    stores = {}
+    for n in ast.walk(f2):
+        if isinstance(n, ast.Name) and isinstance(n.ctx, (ast.Store, ast.Del)):
+            stores[n.id] = stores.get(n.id, 0) + 1
+        elif isinstance(n, ast.arg):
+            stores[n.arg] = stores.get(n.arg, 0) + 2
+        elif isinstance(n, (ast.Global, ast.Nonlocal)):
+            for k in n.names:
+                stores[k] = stores.get(k, 0) + 2
+    local = {}
+    for st in f2.body:      # top-level statements only: not under a loop or a condition
+        if isinstance(st, ast.Assign) and len(st.targets) == 1 and isinstance(st.targets[0], ast.Name) and \
+                isinstance(st.value, ast.Constant) and stores.get(st.targets[0].id) == 1:
+            local[st.targets[0].id] = st.value
+    for k in list(consts):
+        if k in stores:
+            del consts[k]       # shadowed by a local
+    consts.update(local)
+
+    class S(ast.NodeTransformer):
+        def visit_Name(self, n):
+            if isinstance(n.ctx, ast.Load) and n.id in consts:
+                return ast.copy_location(ast.Constant(value=consts[n.id].value), n)
+            return n
+    f2 = S().visit(f2)
+    f2.body = [st for st in f2.body if not (isinstance(st, ast.Assign) and len(st.targets) == 1 and isinstance(st.targets[0], ast.Name)
+                                            and st.targets[0].id in local)] or [ast.Pass()]
+    ast.fix_missing_locations(f2)
+    return f2
+
+
+def truth_formula(view):
+    """the condition under which a predicate function returns a truthy value, as a propositional formula over its tests:
+    OR over its return statements of (path condition of the return AND truth of the returned expression).  `if c: return True
+    else: return False`, `return c`, `return True if c else False`, guard-clause spellings all give the same formula."""
+    disj = []
+    for r in view.cfg.nodes:
+        if r.kind != "return":
+            continue
+        v = r.ast.value
+        if v is None or (isinstance(v, ast.Constant) and not v.value):
+            continue
+        pc = path_condition(view, r, start=[view.cfg.entry.id])
+        if isinstance(v, ast.Constant):
+            disj.append(pc)
+        else:
+            try:
+                v = view.sym(v, r)
+            except Exception:
+                pass
+            if isinstance(v, ast.IfExp):
+                t = _atom(v.test)
+                val = ("or", [("and", [t, _atom(v.body)]), ("and", [("not", t), _atom(v.orelse)])])
+            else:
+                val = _atom(v)
+            disj.append(("and", [pc, val]))
+    return ("or", disj)
